@@ -329,6 +329,28 @@ fn main() {
         t
     });
 
+    // S3e structured operands (word limits, word-crossing products, patterns at every length are S3; carry
+    // chains; all-ones words) x scales x N around the scale and the digit count
+    let st = structured_ints(1, tier.pick(24, 60), run.seed());
+    run.bound("S3e_structured_integers", st.len());
+    run.par("S3e structured operands", st.len(), |i| {
+        let mut t = Tally::default();
+        let l = ndigits(&st[i]) as i128;
+        for x in structured_decimals(&st[i..=i], &[0, 1, l - 1, l, l + 2, -2, 19, 20], &[0, 1]) {
+            let s = x.s;
+            let mut ns: Vec<usize> = vec![0, 1, 2];
+            for k in [s - l - 1, s - l, s - l + 1, s - 2, s - 1, s, s + 1, l - 2, l - 1, l] {
+                if k >= 0 && k <= 400 {
+                    ns.push(k as usize);
+                }
+            }
+            ns.sort();
+            ns.dedup();
+            sweep(&run, &cfg, &x, &ns, &mut t);
+        }
+        t
+    });
+
     // S3b sparse tails behind the rounding digit ({:.N} and {:.Ne})
     let tail_lens: Vec<usize> = if tier.is_thorough() { (0..=72).chain([100, 127, 128, 129, 255, 256, 257, 1023, 1024, 1025, 1100, 1500, 2100, 4100]).collect() } else { (0..=40).chain([63, 64, 65, 257, 1100, 1500]).collect() };
     let tails = sparse_tails(&tail_lens);
